@@ -18,7 +18,7 @@ EXPLANATION = (
     "map; (R3) the signs written through map.D equal the Dsigns literal; _fill_signs is (+ on x, - on z, Dsigns per "
     "map); the Hs block is negated before it is written; the regulariser shifts with the sign; (R4) the "
     "regularisation shift and its restore are guarded by the same flag, the restore follows the refactorisation and "
-    "iterative refinement reads only the restored copy; (R6) all four passes select sparse cones with the same test.")
+    "iterative refinement reads only the restored copy; (R5) one scaling state per factorisation: nothing between kktsystem.update and the last kktsystem.solve of an iteration writes a field that get_Hs / the sparse update / mul_Hs read; (R6) all four passes select sparse cones with the same test; (R7) KKT mirror discipline: the value array and the LDL engine's permuted copy are written only through the paired helpers (re-run of C08.R5).")
 ASSUMPTIONS = ['rustc MIR construction and trait resolution are correct',
                'the block utilities (colcount_block/fill_block ...) are mutually consistent (C16 territory)']
 
